@@ -605,3 +605,11 @@ fn copy_or_downsample(src_mode: &Mode, src_lg_k: u8, tgt_lg_k: u8) -> Array8 {
         result
     }
 }
+
+#[cfg(feature = "verif-hooks")]
+impl HllUnion {
+    /// Verification hook: dump the internal gadget state as plain data.
+    pub fn verif_gadget_state(&self) -> crate::verif::HllState {
+        self.gadget.verif_state()
+    }
+}
